@@ -112,6 +112,8 @@ def crash_kind(exc):
     """ map a Python exception to the model's crash enum """
     from supvisors.ttypes import InvalidTransition
     import re as _re
+    if isinstance(exc, RecursionError):
+        return 'OutOfFuel'       # the drivers' guard against a loop that does not terminate
     table = [(KeyError, 'KeyError'), (InvalidTransition, 'InvalidTransition'), (ValueError, 'ValueError'),
              (TypeError, 'TypeError'), (AttributeError, 'AttributeError'), (IndexError, 'IndexError'),
              (_re.error, 'ReError'), (AssertionError, 'AssertionError')]
